@@ -8,6 +8,7 @@ normal rows and an objective value at semantic decision points, against Mech/Sta
 (run_multi_float): disjoint union of the stage NLPs + master rows, sum of objectives.  Clones are
 emitted on the model side through the model's `clone` function.  A decoy master that clones and
 edits the same template first checks that the template is left unchanged."""
+import numpy as np
 import os, json, random, copy, traceback, glob, multiprocessing as mp
 from fractions import Fraction
 from ..common import VERIF, sha, Fr, jq, dyadic, dyadic_nz
@@ -511,6 +512,62 @@ def corpus():
     return out
 
 
+def union_worker(cfg):
+    """disjoint union with CasADi integrators: two clones of one template whose methods differ only in the VALUES of the
+    integrator options (or in M / the plugin): the rows of the two-stage NLP at a decision vector are the rows of each stage
+    transcribed on its own (declared directly, with its own method)"""
+    from ..common import setup_rockit_path
+    rockit = setup_rockit_path()
+    import io, contextlib
+    from collections import Counter
+    import casadi as ca
+    out = {}
+    try:
+        with contextlib.redirect_stdout(io.StringIO()), contextlib.redirect_stderr(io.StringIO()):
+            Meth = rockit.MultipleShooting if cfg["method"] == "MS" else rockit.SingleShooting
+
+            def meth(spec):
+                return Meth(N=2, M=spec.get("M", 1), intg=spec["intg"], intg_options=dict(spec.get("options", {})))
+
+            def declare(st):
+                x = st.state(); u = st.control()
+                st.set_der(x, -x + u + 0.3 * x * x)
+                st.add_objective(st.integral(u ** 2))
+                st.subject_to(st.at_t0(x) == 1)
+                return x, u
+
+            def rows_of(ocp):
+                ocp.solver("ipopt", {"ipopt.print_level": 0, "print_time": False})
+                ocp._transcribe() if hasattr(ocp, "_transcribe") and not ocp.is_transcribed else None
+                opti = ocp._method.opti
+                f = ca.Function("g", [opti.x], [opti.g])
+                # every decision variable gets the same value: the comparison does not depend on the order of the variables
+                cnt = Counter()
+                for cval in (0.4, 0.7, -0.3):
+                    cnt += Counter((cval, round(float(v), 8)) for v in np.array(f(ca.DM([cval] * opti.nx))).reshape(-1))
+                return cnt
+            # two clones of one template
+            master = rockit.Ocp()
+            tpl = rockit.Stage(T=1)
+            declare(tpl)
+            a = master.stage(tpl, t0=0); b = master.stage(tpl, t0=1)
+            a.method(meth(cfg["A"])); b.method(meth(cfg["B"]))
+            both = rows_of(master)
+            alone = Counter()
+            for t0, spec in ((0, cfg["A"]), (1, cfg["B"])):
+                m2 = rockit.Ocp()
+                st = m2.stage(t0=t0, T=1)
+                declare(st)
+                st.method(meth(spec))
+                alone += rows_of(m2)
+            out["ok"] = both == alone
+            out["only_multi"] = [k for k in (both - alone)][:4]
+            out["only_alone"] = [k for k in (alone - both)][:4]
+    except Exception as e_:
+        out["error"] = "%s: %s" % (type(e_).__name__, str(e_)[:300])
+    return out
+
+
 def run(tier="quick", seed=0, jobs=16):
     n = 80 if tier == "quick" else 800
     npts = 3 if tier == "quick" else 4
@@ -518,7 +575,23 @@ def run(tier="quick", seed=0, jobs=16):
     rr = run_rockit(cps, jobs)
     mv = model_multi(cps, [r.get("inputs") for r in rr], PID)
     dis, nontriv, dist, skipped = judge(cps, rr, mv)
-    return {"evaluations": len(cps), "distinct_nontrivial": len(nontriv), "rule": RULE,
+    ucfg = [{"method": m, "A": A, "B": B} for m in ("MS", "SS") for A, B in (
+        ({"intg": "collocation", "options": {"interpolation_order": 1, "collocation_scheme": "radau"}},
+         {"intg": "collocation", "options": {"interpolation_order": 3, "collocation_scheme": "radau"}}),
+        ({"intg": "collocation", "options": {"interpolation_order": 2, "collocation_scheme": "legendre"}},
+         {"intg": "collocation", "options": {"interpolation_order": 2, "collocation_scheme": "radau"}}),
+        ({"intg": "rk", "M": 1}, {"intg": "rk", "M": 3}),
+        ({"intg": "rk", "M": 2}, {"intg": "expl_euler", "M": 2}))]
+    with mp.get_context("fork").Pool(min(jobs, len(ucfg))) as pool:
+        ru = pool.map(union_worker, ucfg, chunksize=1)
+    for cfg, r in zip(ucfg, ru):
+        dist["union-of-clones/%s" % cfg["A"]["intg"]] = dist.get("union-of-clones/%s" % cfg["A"]["intg"], 0) + 1
+        if "error" in r or not r.get("ok"):
+            dis.append({"property": PID, "case": dict(cfg, _union=True), "points": [], "finding_key": None,
+                        "what": [{"what": "two clones whose methods differ only in integrator options / M / scheme: the rows of the two-stage NLP "
+                                          "are not the rows of each stage transcribed on its own", "rows_only_in_the_multi_stage_NLP": r.get("only_multi"),
+                                  "rows_only_in_the_stages_alone": r.get("only_alone"), "error": r.get("error")}]})
+    return {"evaluations": len(cps) + len(ucfg), "distinct_nontrivial": len(nontriv), "rule": RULE,
             "samples": [{"case": cps[-1][0], "points": cps[-1][1][:1]}],
             "disagreements": dis, "distribution": dist,
             "extra": {"points_per_case": npts, "skipped_unjudgeable": skipped}}
@@ -526,6 +599,9 @@ def run(tier="quick", seed=0, jobs=16):
 
 def replay(path):
     d = json.load(open(path))
+    if d.get("case", {}).get("_union"):
+        print(json.dumps(union_worker(d["case"]), indent=1, default=str))
+        return 0
     cps = [(d["case"], d["points"])]
     rr = run_rockit(cps, 1)
     mv = model_multi(cps, [r.get("inputs") for r in rr], PID + "r")
